@@ -13,7 +13,27 @@ verus! {
 //@include ../common/address.rs
 //@include ../common/bitmap_traits.rs
 
+//@if xen
+// Xen build: accessors of a region that is NOT mapped in advance carry `mmap: Some(info)`; their stored
+// address is a pseudo-address (region offset), and every access has to go through a PtrGuard, whose
+// constructor maps a temporary window (MmapXen::mmap -> MmapXenSlice, window arithmetic: unit xen).
+pub mod libc { pub const PROT_READ: i32 = 1; pub const PROT_WRITE: i32 = 2; }
+pub struct MmapXenSlice { pub addr: Ptr }
+impl MmapXenSlice { pub fn addr(&self) -> (r: Ptr) ensures r == self.addr { self.addr } }
+pub struct MmapInfo { pub id: u32 }
+impl MmapInfo {
+    #[verifier::external_body]
+    pub fn mmap(mmap: Option<&MmapInfo>, addr: Ptr, prot: i32, len: usize) -> (r: MmapXenSlice)
+        ensures mmap is None ==> r.addr == addr,
+                mmap is Some ==> r.addr.wf() && r.addr.valid_for(len as int) && r.addr.live@,
+    { unimplemented!() }
+}
+/// a stored accessor address may be dereferenced directly only if its memory is mapped in advance
+pub open spec fn direct_ok(addr: Ptr, mmap: Option<&MmapInfo>) -> bool { mmap is None ==> addr.live@ }
+//@else
 pub type MmapInfo = PhantomData<()>;
+pub open spec fn direct_ok(addr: Ptr, mmap: Option<&MmapInfo>) -> bool { addr.live@ }
+//@endif
 
 // ------------------------------------------------------------------ layout facts (trusted axioms)
 pub open spec fn is_pow2(x: int) -> bool {
@@ -117,12 +137,20 @@ pub type Result<T> = core::result::Result<T, Error>;
 impl PtrGuard {
 //@fn src/volatile_memory.rs :: impl PtrGuard :: new :: tags=C17
 //@spec
+//@if xen
+    ensures r.len == len, mmap is None ==> r.addr == addr, mmap is Some ==> r.addr.wf() && r.addr.valid_for(len as int) && r.addr.live@, // [C17]
+//@else
     ensures r.addr == addr, r.len == len,
+//@endif
 //@end
 //@endfn
 //@fn src/volatile_memory.rs :: impl PtrGuard :: read :: tags=C17
 //@spec
+//@if xen
+    ensures r.len == len, mmap is None ==> r.addr == addr, mmap is Some ==> r.addr.wf() && r.addr.valid_for(len as int) && r.addr.live@, // [C17]
+//@else
     ensures r.addr == addr, r.len == len,
+//@endif
 //@end
 //@endfn
 //@fn src/volatile_memory.rs :: impl PtrGuard :: as_ptr :: tags=C17
@@ -141,7 +169,11 @@ pub struct PtrGuardMut(pub PtrGuard);
 impl PtrGuardMut {
 //@fn src/volatile_memory.rs :: impl PtrGuardMut :: write :: tags=C17
 //@spec
+//@if xen
+    ensures r.0.len == len, mmap is None ==> r.0.addr == addr, mmap is Some ==> r.0.addr.wf() && r.0.addr.valid_for(len as int) && r.0.addr.live@, // [C17]
+//@else
     ensures r.0.addr == addr, r.0.len == len,
+//@endif
 //@end
 //@endfn
 //@fn src/volatile_memory.rs :: impl PtrGuardMut :: as_ptr :: tags=C17
@@ -163,8 +195,13 @@ impl<'a, B: BitmapSlice> VolatileSlice<'a, B> {
     /// representation invariant: the slice lies inside its allocation, which does not wrap
     pub open spec fn wf(&self) -> bool {
         self.addr.wf() && self.addr.a + self.size <= self.addr.hi@
-        // standard (non-Xen) build: every accessor points into memory mapped in advance
-        && self.addr.live@
+        // standard build: every accessor points into memory mapped in advance;
+        // Xen build: only accessors without mapping info do
+        && direct_ok(self.addr, self.mmap)
+    }
+    /// a guard taken from this accessor designates `n` accessible bytes
+    pub open spec fn guard_ok(&self, g: &PtrGuard, n: int) -> bool {
+        g.len == n && g.addr.valid_for(n) && g.addr.live@ && (self.mmap is None ==> g.addr == self.addr)
     }
     /// exact derivation: `self` is bytes [off, off+count) of `p`, with the bitmap shifted by off.
     /// Implies containment: p.a <= self.a and self.a + self.size <= p.a + p.size when
@@ -185,13 +222,15 @@ impl<'a, B: BitmapSlice> VolatileSlice<'a, B> {
 
 //@fn src/volatile_memory.rs :: impl<'a, B: BitmapSlice> VolatileSlice<'a, B> :: ptr_guard :: tags=C17
 //@spec
-    ensures r.addr == self.addr, r.len == self.size, // [C01,C17]
+    requires self.wf(),
+    ensures self.guard_ok(&r, self.size as int), // [C01,C17]
 //@end
 //@endfn
 
 //@fn src/volatile_memory.rs :: impl<'a, B: BitmapSlice> VolatileSlice<'a, B> :: ptr_guard_mut :: tags=C17
 //@spec
-    ensures r.0.addr == self.addr, r.0.len == self.size, // [C01,C17]
+    requires self.wf(),
+    ensures self.guard_ok(&r.0, self.size as int), // [C01,C17]
 //@end
 //@endfn
 
@@ -314,7 +353,7 @@ where
     B: BitmapSlice,
 {
     pub open spec fn wf(&self) -> bool {
-        self.addr.wf() && self.addr.valid_for(vstd::layout::size_of::<T>() as int) && self.addr.live@
+        self.addr.wf() && self.addr.valid_for(vstd::layout::size_of::<T>() as int) && direct_ok(self.addr, self.mmap)
     }
     /// the bytes this reference covers, as a slice (ghost)
     pub open spec fn view_slice(&self) -> VolatileSlice<'a, B> {
@@ -329,13 +368,15 @@ where
 //@fn src/volatile_memory.rs :: impl<'a, T, B> VolatileRef<'a, T, B> :: ptr_guard :: tags=C17
 //@sub self\.addr as Ptr => self.addr
 //@spec
-    ensures r.addr == self.addr, r.len == vstd::layout::size_of::<T>(), // [C01,C17]
+    requires self.wf(),
+    ensures self.view_slice().guard_ok(&r, vstd::layout::size_of::<T>() as int), // [C01,C17]
 //@end
 //@endfn
 //@fn src/volatile_memory.rs :: impl<'a, T, B> VolatileRef<'a, T, B> :: ptr_guard_mut :: tags=C17
 //@sub self\.addr as Ptr => self.addr
 //@spec
-    ensures r.0.addr == self.addr, r.0.len == vstd::layout::size_of::<T>(), // [C01,C17]
+    requires self.wf(),
+    ensures self.view_slice().guard_ok(&r.0, vstd::layout::size_of::<T>() as int), // [C01,C17]
 //@end
 //@endfn
 //@fn src/volatile_memory.rs :: impl<'a, T, B> VolatileRef<'a, T, B> :: len :: tags=C01
@@ -374,7 +415,7 @@ where
 {
     pub open spec fn wf(&self) -> bool {
         self.addr.wf() && self.nelem * vstd::layout::size_of::<T>() <= isize::MAX
-        && self.addr.valid_for(self.nelem * vstd::layout::size_of::<T>()) && self.addr.live@
+        && self.addr.valid_for(self.nelem * vstd::layout::size_of::<T>()) && direct_ok(self.addr, self.mmap)
     }
     pub open spec fn view_slice(&self) -> VolatileSlice<'a, B> {
         VolatileSlice { addr: self.addr, size: (self.nelem * vstd::layout::size_of::<T>()) as usize, bitmap: self.bitmap, mmap: self.mmap }
@@ -412,13 +453,13 @@ where
 //@fn src/volatile_memory.rs :: impl<'a, T, B> VolatileArrayRef<'a, T, B> :: ptr_guard :: tags=C17
 //@spec
     requires self.wf(),
-    ensures r.addr == self.addr, r.len == self.nelem * vstd::layout::size_of::<T>(), // [C17]
+    ensures self.view_slice().guard_ok(&r, self.nelem * vstd::layout::size_of::<T>()), // [C17]
 //@end
 //@endfn
 //@fn src/volatile_memory.rs :: impl<'a, T, B> VolatileArrayRef<'a, T, B> :: ptr_guard_mut :: tags=C17
 //@spec
     requires self.wf(),
-    ensures r.0.addr == self.addr, r.0.len == self.nelem * vstd::layout::size_of::<T>(), // [C17]
+    ensures self.view_slice().guard_ok(&r.0, self.nelem * vstd::layout::size_of::<T>()), // [C17]
 //@end
 //@endfn
 //@fn src/volatile_memory.rs :: impl<'a, T, B> VolatileArrayRef<'a, T, B> :: to_slice :: tags=C01,C05,C07
@@ -706,6 +747,7 @@ impl<'a, B: BitmapSlice> VolatileMemory for VolatileSlice<'a, B> {
 //@endfn
 }
 
+//@if !xen
 // ------------------------------------------------------------------ mmap/unix.rs: MmapRegion as VolatileMemory
 pub struct FileOffset { pub start: u64 }
 //@item src/mmap/unix.rs :: - :: pub struct MmapRegion<B = \(\)> :: pubfields
@@ -873,6 +915,8 @@ impl<B: Bitmap> GuestRegionMmap<B> {
 //@end
 //@endfn
 }
+
+//@endif
 
 proof fn canary_false()
     ensures false, // [CANARY]
